@@ -15,17 +15,21 @@ import Rngs.Lib.ExtTieBlock
 import Rngs.Lib.ExtTieShapes
 import Rngs.Lib.ExtTieRc
 open Lean Elab Tactic Meta in
-/-- `bounded n => tac`: run `tac` with a budget of `n` thousand heartbeats of its own; running out of it (or any other failure)
+/-- `bounded n => tac`: run `tac` with a budget of `n` thousand heartbeats of its own (not charged to the enclosing
+    declaration); running out of it (or any other failure)
     is an ordinary failure, so that `first | bounded 100 => rfl | …` can go on to a normalising script instead of ending the
     whole proof with a timeout.  (Elaboration-time control only: whatever proof comes out is checked by the kernel as always.) -/
 elab "bounded " n:num " => " t:tacticSeq : tactic => do
   let budget := n.getNat * 1000
   let s ← saveState
+  let h0 ← IO.getNumHeartbeats
   let ok ← tryCatchRuntimeEx
       (do withTheReader Core.Context (fun ctx => { ctx with maxHeartbeats := budget * 1000 }) <|
             withCurrHeartbeats (evalTactic t)
           pure true)
       (fun _ => pure false)
+  -- what the bounded tactic used is not charged to the enclosing declaration (it has its own budget)
+  IO.setNumHeartbeats h0
   unless ok do
     s.restore
     throwError "bounded: the tactic failed or ran out of its budget"
@@ -77,12 +81,22 @@ macro "ext_tie_lfsr" f:ident : tactic =>
 
 /-! ### rand_hc / rand_isaac (the larger proofs are scripts emitted by tools/extract_units.py; lemmas: ExtTieBlock, ExtTieShapes) -/
 
+/-- `f1`, `f2` of HC-128's key expansion: rotations in either direction, xor in any order -/
+macro "ext_tie_hc_fn" f:ident : tactic =>
+  `(tactic| first
+    | bounded 20 => rfl
+    | (funext x
+       simp only [$f:ident, Hc128.f1, Hc128.f2, rotl_eq_rotr, Nat.reduceSub, Nat.reduceLT]
+       first | done | ac_rfl))
+
 /-- `step_p`, `step_q`: the translation (slice views resolved to `self.t` at index + offset) unfolds to the model.  Both sides
     are unfolded to let-free terms; left rotations are written as right rotations, a store split in two
     (`p[i] = p[i] + a; p[i] = p[i] + b`) is merged (`wr_wr_same`, and `rd (wr t i x) i = x` when `i` is in bounds — out of
     bounds every store is void), sums are re-associated.  No unbounded `rfl`: a failing script must fail fast. -/
 macro "ext_tie_hc_step_at" f:ident idx:term : tactic =>
-  `(tactic| (simp only [$f:ident, Hc128.stepP, Hc128.stepQ, wr_wr_same, rotl_eq_rotr, Nat.reduceSub, Nat.reduceLT, Nat.add_zero]
+  `(tactic| (simp only [$f:ident, Hc128.stepP, Hc128.stepQ, wr_wr_same, rotl_eq_rotr, Nat.reduceSub, Nat.reduceLT, Nat.add_zero,
+               -- the table index bytes: `x as u8`, `x & 0xff`, `x % 256` all are `x.toNat % 256`
+               BitVec.toNat_setWidth, BitVec.toNat_and, BitVec.toNat_umod, BitVec.toNat_ofNat, Nat.reducePow, Nat.reduceMod, and_255]
              first
              | done
              | (by_cases h : $idx
@@ -100,7 +114,12 @@ macro "ext_tie_hc_step" f:ident : tactic =>
 /-- ISAAC's nested `rngstep`, `mix` with their `&mut` parameters returned as a tuple -/
 macro "ext_tie_isaac_step" f:ident : tactic =>
   `(tactic| first
-    | (intros; rfl)
+    | bounded 100 => (intros; rfl)
+    | bounded 400 => (intros
+                      unfold $f:ident
+                      simp (config := {zeta := false}) only [Isaac.params32, Isaac.params64]
+                      ac_nf
+                      first | done | bounded 100 => rfl)
     | (intros
        simp only [$f:ident, Isaac.rngstep, Isaac.ind, Isaac.params32, Isaac.params64, BitVec.add_assoc]
        first | done | ac_rfl))
